@@ -146,7 +146,12 @@ class Super:
                 else:
                     vt = self.virtual_targets(site)
                     if vt:
-                        targets = list(vt)
+                        # class-hierarchy targets that are already being expanded (a wrapper
+                        # `impl Trait for W { fn f(&self) { self.inner.f() } }` whose dyn inner
+                        # call has W::f among its candidates) add nothing new: the nesting of
+                        # wrappers is finite and every level runs this same body
+                        on_stack = {c[0] for c in ctx} | {body.path}
+                        targets = [c_ for c_ in vt if c_.path not in on_stack]
                 if targets:
                     cs = (body.path, bb)
                     if any(c[:2] == cs for c in ctx) or len(ctx) >= self.max_depth:
